@@ -841,6 +841,17 @@ def _type_from_subscripted_value(
         return TypeQualifierValue(
             "ReadOnly", _type_from_value(members[0], ctx, is_typeddict=True)
         )
+    elif is_typing_name(root, "Final"):
+        if len(members) != 1:
+            ctx.show_error("Final requires a single argument")
+            return AnyValue(AnySource.error)
+        # TODO(#160): properly support Final
+        return _type_from_value(members[0], ctx)
+    elif is_typing_name(root, "ClassVar"):
+        if len(members) != 1:
+            ctx.show_error("ClassVar requires a single argument")
+            return AnyValue(AnySource.error)
+        return _type_from_value(members[0], ctx)
     elif is_typing_name(root, "Unpack"):
         if not allow_unpack:
             ctx.show_error("Unpack[] used in unsupported context")
